@@ -3,6 +3,7 @@
 pub mod util;
 pub mod arena;
 pub mod bufs;
+pub mod crash;
 pub mod drv;
 pub mod files;
 pub mod free;
@@ -73,6 +74,7 @@ fn main() {
         "files" => files::child_main(&args),
         "sched" => sched::child_main(&args),
         "free" => free::child_main(&args),
+        "crash" => crash::child_main(&args),
         "cksum" => readers::c19_main(&args),
         "drive" => drive::main(&args),
         other => {
